@@ -392,6 +392,21 @@ def _unserialisable(depth):
     return m
 
 
+def _edit_lists_in_place(obj, seen):
+    """appends an entry to every list held by the attribute objects of a composed message; returns how many"""
+    if id(obj) in seen or not hasattr(obj, "__dict__") or not type(obj).__module__.startswith("yowsup."):
+        return 0
+    seen.add(id(obj))
+    n = 0
+    for v in list(vars(obj).values()):
+        if isinstance(v, list):
+            v.append("4915100000099@s.whatsapp.net")
+            n += 1
+        else:
+            n += _edit_lists_in_place(v, seen)
+    return n
+
+
 def run_case(case):
     out = Outcome()
     spec = case["spec"]
@@ -414,6 +429,16 @@ def run_case(case):
             except (TypeError, ValueError):
                 failed += 1
         out.label("after_failed_serialisations" if failed else "after_failures_none_failed")
+    if sub == "attrs" and case.get("earlier_composed"):
+        # an earlier message composed in the same process - and edited in place afterwards, the way an application adds a mention
+        # to a reply (ctx.mentioned_jid.append(jid)) - has no part in what a later, separately composed message carries
+        try:
+            earlier = build_message(case["earlier_composed"])
+            n_edit = _edit_lists_in_place(earlier, set())
+            conv.message_to_protobytes(earlier)
+            out.label("after_an_earlier_message_edited_in_place" if n_edit else "after_an_earlier_message")
+        except Exception:
+            out.label("earlier_message_not_composable")
     if sub == "attrs":
         try:
             attrs = build_message(spec)
@@ -890,6 +915,8 @@ def case_strategy(sub):
                 if draw(st.booleans()):
                     meta["participant"] = draw(_jid)
             case["meta"] = meta
+            if draw(st.integers(0, 2)) == 0:
+                case["earlier_composed"] = draw(message_strategy(0))
             if draw(st.booleans()):
                 case["edit"] = draw(message_strategy(0))
                 case["edit_copy"] = draw(st.booleans())
@@ -940,6 +967,15 @@ def _enum_each_kind():
             yield {"sub": "peer", "spec": {kind: body}}
         yield {"sub": "attrs", "spec": {"contact": {"display_name": "Bob", "vcard": "424547494e", "context_info": zc}}, "meta": {"incoming": True}}
         yield {"sub": "attrs", "spec": {"extended_text": dict(specs[5]["extended_text"], context_info=zc)}, "meta": {"incoming": True}}
+    # a reply composed and given a mention in place, then another message with a context of its own and no mentions
+    plain_ctx = {"stanza_id": "ABCDEF0123", "participant": "4915100000001@s.whatsapp.net", "quoted_message": {"conversation": "quoted"}}
+    for s0 in (specs[3], specs[5], {"image": dict(specs[1]["image"], dm=dict(full_dm, context_info=plain_ctx))}):
+        kind = [k for k in s0 if k in KINDS][0]
+        body = dict(s0[kind])
+        if "dm" not in body:
+            body["context_info"] = plain_ctx
+        yield {"sub": "attrs", "spec": {kind: body}, "meta": {"incoming": False},
+               "earlier_composed": {"extended_text": {"text": "@you", "context_info": {"stanza_id": "00FF"}}}}
     # the kind's own entity classes: read every property, assign every property
     for s in specs[1:10]:
         kind = [k for k in s if k in KINDS][0]
